@@ -167,8 +167,8 @@ var targets = []Target{
 	{Func: "lazyCallReq.TTL", Out: "lazyCallReqTTL", Params: "(ttl_field : Z)", Ret: "Z",
 		Hints: map[string]string{"binary.BigEndian.Uint32(f.Payload[_ttlIndex : _ttlIndex+_ttlLen])": "ttl_field"}},
 	// C08 -- relay.go / relay_messages.go: the relay's ttl arithmetic
-	{Func: "validateRelayMaxTimeout", Out: "validateRelayMaxTimeout", Params: "(d : Z)", Ret: "Z",
+	{Func: "validateRelayMaxTimeout", Out: "validateRelayMaxTimeout", File: "GenRelayFwd", Params: "(d : Z)", Ret: "Z",
 		SHints: map[string]string{"logger.WithFields(...": ""}},
-	{Func: "lazyCallReq.TTL", Out: "lazyTTL", Params: "(ttl_ms : Z)", Ret: "Z",
+	{Func: "lazyCallReq.TTL", Out: "lazyTTL", File: "GenRelayFwd", Params: "(ttl_ms : Z)", Ret: "Z",
 		SHints: map[string]string{"ttl := binary.BigEndian.Uint32(f.Payload[_ttlIndex : _ttlIndex+_ttlLen])": "let ttl := ttl_ms in"}},
 }
